@@ -131,6 +131,19 @@ def check_one(case):
                 if got != ("ok", want) or la != list(a) or lb != list(b):
                     return "compare_pos", (f"compare_pos_in_iterables on the caller's lists {a},{b} (call {2 * rnd + (tag == 'b,a') + 1} "
                                            f"on the same objects, order {tag}) -> {got}, expected {want}; lists afterwards {la},{lb}"), {"got": got}
+        # containers that are iterables of their keys: dicts with different values, ordered dicts in different orders, Counters
+        # with zero counts, sets and frozensets, dict views - only what iteration yields counts
+        if len(set(a)) == len(a) and len(set(b)) == len(b):
+            import collections
+            da, db = {x: i for i, x in enumerate(a)}, {x: -i - 1 for i, x in enumerate(reversed(b))}
+            oa, ob = collections.OrderedDict((x, 0) for x in a), collections.OrderedDict((x, 1) for x in reversed(b))
+            ca, cb = collections.Counter({x: 0 for x in a}), collections.Counter({x: 2 for x in b})
+            for fa, fb, what in ((da, db, "two dicts"), (oa, ob, "two OrderedDicts"), (ca, cb, "two Counters"), (set(a), frozenset(b), "set / frozenset"),
+                                 (da.keys(), db, "keys view / dict"), (da, list(b), "dict / list")):
+                got = outcome(g.compare_pos_in_iterables, fa, fb)
+                if got != ("ok", want):
+                    return "compare_pos", (f"compare_pos_in_iterables({fa!r}, {fb!r}) ({what}: iteration yields {list(fa)} and {list(fb)}) -> {got}, "
+                                           f"expected {want}"), {"got": got}
         # unhashable elements (lists) and a mix of hashable / unhashable ones, also through one-shot iterables
         # ... and elements that are only partially ordered (frozensets: `<` is the subset test) or not ordered at all (complex)
         for wrap in (lambda x: [x], lambda x: [x] if x else x, lambda x: frozenset([x]), lambda x: frozenset([x, -1 - x]),
@@ -214,7 +227,17 @@ def check_one(case):
             forms = [lambda: base[0], lambda: iter(base[0]), lambda: (x for x in base[0])]
         else:
             want = [tuple(x[i * b:(i + 1) * b] for x in base) for i in range(nb)]
-            forms = [lambda: tuple(base), lambda: tuple(iter(x) for x in base)]
+
+            class _GetItemOnly:
+                """Iterable through the old sequence protocol only (__getitem__ with 0, 1, 2 ... until IndexError), no __iter__."""
+
+                def __init__(self, items):
+                    self._items = list(items)
+
+                def __getitem__(self, i):
+                    return self._items[i]
+            forms = [lambda: tuple(base), lambda: tuple(iter(x) for x in base), lambda: tuple(_GetItemOnly(x) for x in base),
+                     lambda: (base[0],) + tuple(_GetItemOnly(x) for x in base[1:])]
         for mk in forms:
             got = outcome(lambda: list(g.BatcherIter(mk(), b)))
             if got != ("ok", want):
